@@ -27,6 +27,8 @@ structure St where
   done : List (Nat × Nat × Nat × List (Nat × Nat × String)) := []
   /-- one live `QueryTaxResult` (after `build_summarized_result`) the `s…` writer ops share; the W·scaled it belongs to -/
   sess : Option (List (List (Entry SF String)) × Nat) := none
+  /-- the same object's summarisation state: number of ranks, its rows, `summarized_ranks` (none = never summarized) -/
+  sobj : Option (Nat × List (RowV SF String) × Option (List Nat)) := none
   /-- how the rows of the queries are delivered: files, each a sequence of (query, row) references; `none` = one CSV per
   query, rows in gather's order -/
   layout : Option (List (List (Nat × Nat))) := none
@@ -177,6 +179,13 @@ def showBioboxes (ess : List (List (Entry SF String))) : String :=
   " ".intercalate ((ess.flatten.filter (fun e => !isUnclassified e)).map (fun e =>
     s!"{Sm.Gen.taxNcbiRanks.getD e.rank "?"}|{enc (display e.lin)}|{fmtDecStr (timesHundred e.fw) 2}"))
 
+/-- is rank `r` among the shared object's `summarized_ranks` (krona / lineage_summary refuse other ranks) -/
+def srHas (st : St) (r : Nat) : Bool :=
+  match st.sobj with
+  | some (_, _, some l) => l.contains r
+  | some (_, _, none) => false
+  | none => true
+
 def answer (x : Except Err String) : String :=
   match x with
   | .ok s => if s = "" then "ok" else "ok " ++ s
@@ -239,13 +248,66 @@ def step (st : St) (line : String) : St × String :=
     | none => bad
   | ["sopen"] =>
     match build st none with
-    | .ok ess => ({ st with sess := some (ess, st.W * st.scaled) }, "ok")
-    | .error e => ({ st with sess := none }, "err " ++ errName e)
+    | .ok ess =>
+      let so := match mkRows st with
+        | .ok (nr, rows) => some (nr, rows, some (summarizedRanks nr rows))
+        | .error _ => none
+      ({ st with sess := some (ess, st.W * st.scaled), sobj := so }, "ok")
+    | .error e => ({ st with sess := none, sobj := none }, "err " ++ errName e)
+  | ["snew"] =>
+    -- a loaded QueryTaxResult nothing has been built on yet
+    match mkRows st with
+    | .ok (nr, rows) => ({ st with sess := some ([], st.W * st.scaled), sobj := some (nr, rows, none) }, "ok")
+    | .error e => ({ st with sess := none, sobj := none }, "err " ++ errName e)
+  | ["sbuild", r, f] =>
+    let single? : Option (Option Nat) := if r = "-" then some none else (nat? r).map some
+    match single?, bool? f, st.sobj, st.sess with
+    | some single, some force, some (nr, rows, sr), some (_, t) =>
+      match sessBuild f64 f64Repair (st.N * st.scaled) nr rows single force sr with
+      | .ok (l, ess) => ({ st with sess := some (ess, t), sobj := some (nr, rows, some l) }, "ok")
+      | .error e =>
+        -- the result lists were reset before the failure; a failed (re)summarisation leaves no summarized ranks
+        let sr' := match sessRanks nr rows single force sr with
+          | .ok l => some l
+          | .error _ => none
+        ({ st with sess := some ([], t), sobj := some (nr, rows, sr') }, "err " ++ errName e)
+    | _, _, _, _ => bad
+  | ["scls", r, p, q, f] =>
+    let rank? : Option (Option Nat) := if r = "-" then some none else (nat? r).map some
+    let thr? : Option (Option SF × Bool) :=
+      if p = "none" then some (none, true)
+      else match nats? [p, q] with
+        | some [p, q] => if q = 0 then none else some (some (SF.ofF (divNat p q)), decide (p ≤ q))
+        | _ => none
+    match rank?, thr?, bool? f, st.sobj with
+    | some rank, some (thr, thrOk), some force, some (nr, rows, sr) =>
+      -- a forced re-summarisation of an already summarized object goes through `_init_summarization_vars`, which also
+      -- empties the result lists of an earlier `build_summarized_result`
+      let wipe := thrOk && force && (match sr with | some l => !l.isEmpty | none => false)
+      let st := if wipe then { st with sess := st.sess.map (fun p => ([], p.2)) } else st
+      match sessClassify f64 f64Repair nr rows rank thr thrOk force sr with
+      | .ok (l, some c) =>
+        ({ st with sobj := some (nr, rows, some l) },
+         s!"ok {statusName c.status} {c.rank} {enc (display c.lin)} {c.f.toStr} {c.fw.toStr} {c.bp}")
+      | .ok (l, none) => ({ st with sobj := some (nr, rows, some l) }, "err ValueError:other")
+      | .error e =>
+        let sr' := if thrOk then (match sessRanks nr rows rank force sr with
+          | .ok l => some l
+          | .error _ => none) else sr
+        ({ st with sobj := some (nr, rows, sr') }, "err " ++ errName e)
+    | _, _, _, _ => bad
   | ["scsv"] =>
     match st.sess with
-    | some (ess, t) =>
+    | some (ess0, t) =>
+      -- `make_full_summary` walks `summarized_ranks`, whatever the lists hold
+      let inSr (es : List (Entry SF String)) : Bool := match st.sobj with
+        | some (_, _, some l) => es.all (fun e => l.contains e.rank)
+        | some (_, _, none) => false
+        | none => true
+      let ess := ess0.filter inSr
       let (ess', rows) := sessCsv f64 ess
-      ({ st with sess := some (if Sm.Gen.taxWritersSortInPlace then ess' else ess, t) }, answer (.ok (showEntries rows)))
+      ({ st with sess := some (if Sm.Gen.taxWritersSortInPlace then ess' ++ ess0.filter (fun es => !inSr es) else ess0, t) },
+       answer (.ok (showEntries rows)))
     | none => bad
   | ["shuman", r] =>
     match nat? r, st.sess with
@@ -255,11 +317,13 @@ def step (st : St) (line : String) : St × String :=
     | _, _ => bad
   | ["skrona", r] =>
     match nat? r, st.sess with
-    | some r, some (ess, _) => (st, answer (.ok (showFracs (sessKrona f64 r ess))))
+    | some r, some (ess, _) =>
+      if srHas st r then (st, answer (.ok (showFracs (sessKrona f64 r ess)))) else (st, "ok")
     | _, _ => bad
   | ["slsum", r] =>
     match nat? r, st.sess with
-    | some r, some (ess, _) => (st, answer (.ok (showFracs (lsumRows r ess))))
+    | some r, some (ess, _) =>
+      if srHas st r then (st, answer (.ok (showFracs (lsumRows r ess)))) else (st, "ok")
     | _, _ => bad
   | ["skreport"] =>
     match st.sess with
